@@ -17,7 +17,12 @@ use std::future::Future;
 use std::mem::MaybeUninit;
 use std::pin::Pin;
 use std::task::{Context, Poll, RawWaker, RawWakerVTable, Waker};
+#[cfg(not(excsn_fibre_verif))]
 use std::time::{Duration, Instant};
+#[cfg(excsn_fibre_verif)]
+use std::time::Duration;
+#[cfg(excsn_fibre_verif)]
+use fibre_verif_rt::time::Instant;
 
 // `hint::spin_loop` routes through the facade so the PARK_CONSUMING waits below
 // are scheduler yield-points loom can explore rather than branch-cap blowups.
